@@ -352,6 +352,10 @@ func main() {
 		}
 		var nPass, nFail, nSkip, nTree int
 		for b := 0; b < nscripts; b += batch {
+			if r.Violations() >= 8 {
+				r.Set("stopped_early_after_violations", r.Violations())
+				break
+			}
 			dir := filepath.Join(base, fmt.Sprintf("b%d", b))
 			// group scripts by Params (one RunT call per distinct Params value)
 			groups := map[string][]*genScript{}
@@ -378,7 +382,7 @@ func main() {
 				}
 				// safety net only: a script that hangs (no generated script may) is ended by the deadline and then
 				// shows up as a verdict mismatch instead of stalling the whole check
-				p := testscript.Params{Files: files, Cmds: cmds, WorkdirRoot: wroot, Deadline: time.Now().Add(90 * time.Second),
+				p := testscript.Params{Files: files, Cmds: cmds, WorkdirRoot: wroot, Deadline: time.Now().Add(30 * time.Second),
 					ContinueOnError: gs[0].continueOn, RequireExplicitExec: gs[0].explicit, RequireUniqueNames: gs[0].unique}
 				if gs[0].final.customCond {
 					p.Condition = condFn
